@@ -251,7 +251,57 @@ func outsidePayloads() []*V {
 	}
 }
 
+// A payload whose scalars sit only at the bottom of a chain of containers: every level above holds nothing but the next container.
+// wraps, applied from the bottom up: S struct field, P pointer field, L slice of pointers, LV slice of structs, M pointer in an
+// interface-valued map, MV struct by value in a map.  The leaves of deepChain(w) are 1 + (1 per S / P, 2 per L / LV / M / MV)
+// struct / slice / map levels below the payload root.
+func deepChain(c int, wraps ...string) *V {
+	sec, sens, pub := sp("secret"), sp("sensitive"), sp("public")
+	cur := st(fld("F1", sec, str(c)), fld("F2", sens, str(c+1)), fld("F3", nil, str(c+2)), fld("F4", pub, str(c+3)),
+		fld("F5", sp("sensitive,hmac-sha256"), &V{K: "bytes", C: c + 4}), fld("F6", sec, &V{K: "strs", Cs: []int{c + 5, c + 6}}))
+	for _, w := range wraps {
+		switch w {
+		case "S":
+			cur = st(fld("F1", nil, cur))
+		case "P":
+			cur = st(fld("F1", nil, ptr(cur)))
+		case "L":
+			cur = st(fld("F1", nil, sliceOf(ptr(cur))))
+		case "LV":
+			cur = st(fld("F1", nil, sliceOf(cur)))
+		case "M":
+			cur = st(fld("F1", nil, imap("k1", ptr(cur))))
+		case "MV":
+			cur = st(fld("F1", nil, imap("k1", cur)))
+		}
+	}
+	return ptr(cur)
+}
+
+func deepPayloads() []*V {
+	return []*V{
+		deepChain(1, "P", "L", "M"),             // 6 levels: pointer -> struct -> slice of pointers -> map -> struct
+		deepChain(1, "L", "M", "P"),             // 6
+		deepChain(1, "M", "M", "S"),             // 6
+		deepChain(1, "S", "S", "S", "S", "S"),   // 6, structs only
+		deepChain(1, "L", "L", "P"),             // 6, slices only
+		deepChain(1, "LV", "MV", "L"),           // 7, by value
+		deepChain(1, "M", "L", "M", "P"),        // 8
+		deepChain(1, "P", "L", "M", "S", "L"),   // 9
+		deepChain(1, "M", "L", "MV", "LV", "P"), // 10
+		deepChain(1, "P", "L"),                  // 4 and 5: on the near side of any bound at five
+		deepChain(1, "M", "L"),
+		sliceOf(deepChain(1, "P", "L", "M")), // the payload itself a slice / a map over the chain
+		imap("k1", deepChain(1, "L", "M", "P")),
+	}
+}
+
 func genSeeds(e *emitter) {
+	for _, cf := range []Cfg{{Wrap: "ok"}, {Ov: [3]string{"", "hmac", "encrypt"}, Wrap: "ok"}, {Ov: [3]string{"redact", "redact", "none"}, Wrap: "absent"}, {Wrap: "failing", EncFail: []int{1}}} {
+		for _, v := range deepPayloads() {
+			e.emit(Case{Gen: "seeds-deep", Cfg: cf, PK: "val", V: v})
+		}
+	}
 	for _, cf := range []Cfg{{Wrap: "ok"}, {Ov: [3]string{"", "hmac", "encrypt"}, Wrap: "ok"}} {
 		for _, v := range outsidePayloads() {
 			e.emit(Case{Gen: "seeds-outside", Cfg: cf, PK: "val", V: v, SnapOnly: true})
